@@ -25,10 +25,10 @@ theorem C02_deliver_nonempty_imp_enabled (cfg : Config) (t : Name) (lvl : Nat) (
   cases hb : build cfg with
   | none => simp [hb] at h
   | some tree =>
-    simp only [hb, Option.map_some, Option.some.injEq, logNode] at h ⊢
+    simp only [hb, Option.map_some, Option.bind_some, Option.some.injEq, logNode] at h ⊢
     split at h
     · assumption
-    · exact absurd h.symm hne
+    · exact absurd (Option.some.inj h).symm hne
 
 /-- `enabled` and delivery gate on the same threshold: with the gate open the whole chain is delivered. -/
 theorem C02_enabled_imp_deliver_chain (cfg : Config) (hv : Valid cfg) (t : Name) (lvl : Nat)
